@@ -4,8 +4,10 @@ mod codec;
 mod engines;
 mod node;
 mod real;
+mod refmodel;
 mod report;
 mod util;
+mod world;
 
 use report::{Check, Tier};
 
@@ -43,11 +45,25 @@ fn main() {
             let code = run_check(&prop, tier);
             std::process::exit(code);
         }
+        "explore" => {
+            // experimentation: ccmc explore <plan> <quick|thorough> <secs> [prop]
+            let tier = if args.get(3).map(|s| s.as_str()) == Some("thorough") { Tier::Thorough } else { Tier::Quick };
+            let secs: u64 = args.get(4).and_then(|s| s.parse().ok()).unwrap_or(30);
+            let prop: &'static str = Box::leak(args.get(5).cloned().unwrap_or("C02".into()).into_boxed_str());
+            let part = engines::cluster::run_plan(&args[2], prop, tier, secs);
+            for p in part {
+                println!("{} states={} transitions={} exhaustive={} caps={:?}\n  tally={}", p.name, p.states, p.transitions, p.exhaustive, p.caps_hit, p.tally.to_json());
+                for v in p.violations.iter().take(3) {
+                    println!("  VIOL {} [{}] {}\n    {}", v.property, v.signature, v.what, v.replay["actions"]);
+                }
+            }
+        }
         "replay" => {
             let s = std::fs::read_to_string(&args[2]).expect("read replay file");
             let v: serde_json::Value = serde_json::from_str(&s).expect("parse replay file");
             let r = match v["engine"].as_str().unwrap_or("") {
                 "kv" => engines::kv::replay(&v),
+                "cluster" => engines::cluster::replay_file(&v),
                 e => Err(format!("unknown engine {e}")),
             };
             match r {
@@ -73,6 +89,10 @@ fn run_check(prop: &str, tier: Tier) -> i32 {
             check.parts.extend(engines::kv::run(prop, tier, started));
             check.assumptions.push("alphabet: 5 keys (\"\", a, ab, b, é) x 2 values; grace period 1000 ms; clock advances of G-1 ms and 1 ms".into());
             check.outside_bounds.push("larger key/value alphabets; sequences longer than the exhaustive bound that are not covered by the abstraction of part 2".into());
+        }
+        "C01" | "C02" | "C03" | "C04" | "C05" | "C20" => {
+            let p: &'static str = match prop { "C01" => "C01", "C02" => "C02", "C03" => "C03", "C04" => "C04", "C05" => "C05", _ => "C20" };
+            check.parts.extend(engines::cluster::run(p, tier));
         }
         _ => {
             eprintln!("no check registered for {prop}");
